@@ -1632,7 +1632,8 @@ export class ArrayRuntype extends BaseRuntype {
     return false;
   }
   parseAfterValidation(ctx: ParseContext, input: any): unknown {
-    return (input as any[]).map((v) => this.itemParser.parseAfterValidation(ctx, v));
+    // not `input.map(..)`: a method looked up on the input could be an own property of a hostile array
+    return Array.prototype.map.call(input, (v: unknown) => this.itemParser.parseAfterValidation(ctx, v));
   }
   reportDecodeError(ctx: ReportContext, input: unknown): DecodeError[] {
     if (!Array.isArray(input)) {
